@@ -255,6 +255,10 @@ def document(input_file: str, settings: Settings):
                     if filename.endswith(".cmake"):
                         break
                 else:
+                    # Without the recursive flag the walk ends with the
+                    # input directory, whether it is documented or not
+                    if not recursive:
+                        break
                     continue
 
             # Sort filenames and subdirs in alphabetical order
